@@ -84,7 +84,7 @@ func RunHistoryCfg(c *run.Ctx, cfg sim.Config, o HistOpts, hooks sim.Hooks, onOp
 	c.Defer(s.Finish)
 	c.Ch.Note("config: %s", cfg.String())
 	if s.CreateErr != nil {
-		c.Failf("harness.create", "table creation failed for a valid configuration %s: %v", cfg.String(), s.CreateErr)
+		c.Failf(c.Prop+".valid-setup-refused", "creating the table / seating its players failed for a valid configuration %s: %v", cfg.String(), s.CreateErr)
 	}
 	if o.Prepare != nil {
 		o.Prepare(s)
